@@ -93,6 +93,7 @@ class Harness:
         if not r.ok:
             raise Violation("init:refused", got=r.brief(), keys=keys, mod=mod)
         self.c = r.value
+        karr[...] = 0 if karr.any() else 1          # the key array stays the caller's
         self.same, self.empty = absent_candidates(self.keys, dt, self.mod_eff)
         self.labels += ["dt:" + dt, "init:" + ikind, "mod:" + ("default" if mod is None else "1" if mod == 1 else "explicit")]
         self.read()
@@ -144,6 +145,8 @@ class Harness:
         g = np.asarray(got.value)
         if g.shape != (len(ks),) or [int(x) for x in g] != [self.m[k] for k in ks]:
             raise Violation("totals", keys=ks, expected=[self.m[k] for k in ks], got=jsonable(g))
+        if isinstance(got.value, np.ndarray) and got.value.size and got.value.flags.writeable:
+            got.value[...] = 0 if got.value.astype(bool).any() else 1      # the totals read back are the caller's copy
 
     def finish(self, ctx):
         ctx.label(*sorted(set(self.labels)), "batches:%d" % min(self.batches, 4))
